@@ -90,7 +90,6 @@ func init() {
 	log.RegisterPlugin[RecAppender]("Rec", log.PluginTypeAppender)
 }
 
-
 // warmHistory gives every case the same non-trivial past, whatever shard it runs in: the process
 // has already been configured, has logged located events with hooks set (through a sync and an async
 // logger, both caller modes) and has been destroyed. Defects that need a history (recycled pooled
